@@ -172,7 +172,12 @@ where
     }
 
     async fn process_all(&mut self) -> HappyEyeballsResult<T, E> {
-        for _ in 0..self.initial_concurrency.unwrap_or(self.queue.len()) {
+        // Start at most as many attempts as there are candidates: a concurrency limit larger
+        // than that (e.g. `usize::MAX` for "no limit") must not be used as a loop bound.
+        let initial = self
+            .initial_concurrency
+            .map_or(self.queue.len(), |limit| limit.min(self.queue.len()));
+        for _ in 0..initial {
             if let Some(future) = self.queue.pop_front() {
                 self.tasks.push(future);
             }
